@@ -969,6 +969,7 @@ func (f *frame) execRecv(x *ssa.UnOp) {
 		ch := f.asTerm(f.get(x.X))
 		arr := c.heapGet(f.heap, "G rcvd", arraySort(SInt, SInt))
 		c.assume(implies(f.guard, ge(sel(arr, ch), tZero)))
+		c.assumed["joins: rcvd(ch) counts completed receives from ch (ghost counter written by the receive rule only, never negative)"] = true
 		c.heapSet(f.heap, "G rcvd", ite(f.guard, store(arr, ch, add(sel(arr, ch), tOne)), arr))
 	}
 	if x.CommaOk {
